@@ -693,6 +693,8 @@ def _behaviour(roles: List[str], atc_child: L.Child, run_children=None):
         i = _n[0]
         _n[0] += 1
         role = roles[i] if i < len(roles) else 'unexpected'
+        if role in run_children:
+            return run_children[role]
         if role == 'gen':
             return L.Child(out=sp.GEN_OUT, err=sp.GEN_ERR)
         if role == 'gen-ign':
@@ -800,7 +802,7 @@ _K3 = {}
 
 def _k3_case(name: str) -> K3Case:
     if not _K3:
-        for c in _k3_cases('thorough') + _k4_cases('thorough') + _k3x_cases():
+        for c in _k3_cases('thorough') + _k4_cases('thorough') + _k3x_cases() + _k4x_cases():
             _K3[c.name] = c
     return _K3[name]
 
